@@ -170,7 +170,7 @@ def run(prog, check):
         if isinstance(st, ast.Assign) and len(st.targets) == 1 and isinstance(st.targets[0], ast.Name):
             loop_defs.setdefault(st.targets[0].id, []).append(st.value)
 
-    def abs_derived(ex, depth=0):
+    def abs_derived(ex, depth=0, seen=frozenset()):
         """the expression contains abs(new[var] - old[var]) itself, or a local name all of whose definitions in the
         per-variable loop do (helpers are already inlined)"""
         for c in ast.walk(ex):
@@ -183,9 +183,11 @@ def run(prog, check):
         if depth > 4:
             return False
         for x in ast.walk(ex):
-            if isinstance(x, ast.Name):
+            if isinstance(x, ast.Name) and x.id not in seen:
                 defs = loop_defs.get(x.id) or ([subst[x.id]] if x.id in subst else [])
-                if defs and all(abs_derived(d, depth + 1) for d in defs):
+                # a definition in terms of the name itself (d = d / scale) keeps the property of the other definitions
+                base = [d for d in defs if not any(isinstance(y, ast.Name) and y.id == x.id for y in ast.walk(d))]
+                if base and all(abs_derived(d, depth + 1, seen | {x.id}) for d in base):
                     return True
         return False
     for a in accum:
